@@ -351,6 +351,31 @@ def rule_csv_tables(ctx: Ctx) -> RuleResult:
             if e.k == "call" and e.func == ("func", mfn, mm_):
                 ok_ = len(e.args) == 3 and e.args[1][0] == "param" and e.args[1][1] == "separator" and e.args[2][0] == "param" and e.args[2][1] == "escapechar"
                 merge_args_ok = ok_ if merge_args_ok is None else (merge_args_ok and ok_)
+        # the fields come from the merger applied to the FULL split of the line, on every path (a bounded split, or a path that skips the
+        # merger, leaves a separator inside a quoted field unexamined: ',a' is written '",a"' and splits into '"' and 'a"')
+        splits = [e for e in p.trace if e.k == "call" and e.d.get("method") == "split" and e.base == LINE]
+        merges = [e for e in p.trace if e.k == "call" and e.func == ("func", mfn, mm_)]
+        full = len(splits) >= 1 and all(len(s.args) == 1 for s in splits)
+        okp = full and len(merges) == 1 and bool(merges[0].args) and any(merges[0].args[0] == s.result for s in splits)
+        if full and not merges:
+            # the merger may be skipped exactly when the full split already has one piece per column: every separator inside a quoted
+            # field adds a piece, so equal counts mean that no field contains one
+            def count_eq(e):
+                tt, pol = e.test, e.outcome
+                while tt[0] == "not":
+                    tt, pol = tt[1], not pol
+                if tt[0] != "cmp" or tt[1] not in ("Eq", "NotEq"):
+                    return False
+                sides = (tt[2], tt[3])
+                lens = [x for x in sides if x[0] == "call" and x[1] == ("builtin", "len") and any(x[2][0] == s.result for s in splits)]
+                cols = [x for x in sides if x == ("arg", m.scopes[fn].params[2])]
+                return bool(lens) and bool(cols) and (pol == (tt[1] == "Eq"))
+            okp = any(count_eq(e) for e in p.trace if e.k == "decision")
+        r.ob(okp, lambda p=p, splits=splits, merges=merges: Finding(
+            "CS-1", "%s::parse_line{full-split}" % CSV, m.where(fn),
+            "on this path the fields do not come from merge_escape_parts(line.split(separator), ...): %d split(s) [%s], %d call(s) of the merger -- a quoted field "
+            "containing the separator is cut where the merger was not consulted" % (
+                len(splits), "; ".join(s.brief()[:50] for s in splits), len(merges)), trace_of(p)))
         # the unquoting branch: value handed to the column parser is a replace chain over i[1:-1]
         for e in p.trace:
             if e.k == "call" and e.func[0] == "sub" and e.func[1] == ("arg", m.scopes[fn].params[1]) and e.args:
@@ -1473,8 +1498,10 @@ def rule_pu2(ctx: Ctx) -> RuleResult:
                 r.ob(ok, lambda e=e, p=p: Finding("PU-2", "%s::_dump_parquet{mode}" % PQ, e.where(),
                                                   "the parquet file must be created / truncated for binary writing (mode 'wb'); here %s: an existing file keeps its "
                                                   "old bytes in front of the new ones" % e.brief(), trace_of(p)))
-    if not nopen:
-        raise AnalysisError("parquet._dump_parquet: the open_obj call of the writer was not found")
+    r.ob(nopen > 0, lambda: Finding(
+        "PU-2", "%s::_dump_parquet{open-at-subscription}" % PQ, site.where(),
+        "the file is not opened (and the writer not created) when the subscription is made: a source without rows never opens it, so dump_to_file leaves no "
+        "file, or an empty one, where a valid parquet file with zero rows is expected"))
     spec = site.handler_specs("on_next")[0]
     for p in ctx.paths(spec, None, {}):
         r.paths += 1
